@@ -20,7 +20,7 @@ MISTAKES = (
     "nested_undefined_names", "nested_maybe_undefined_captures", "nested_branch_type_captures",
     "nested_recursive_body_fails", "struct_bad_field_type",
     "entry_const_params", "declare_const_params", "struct_methods_override_fields",
-    "unsolved_pair", "family_body_fails", "uninferable_call",
+    "unsolved_pair", "family_body_fails", "uninferable_call", "maybe_undefined_dead_merge",
 )
 # mistakes that are planted at module level, not inside a function body
 MODULE_LEVEL = ("comptime_raises", "entry_has_args", "non_monomorphic_entry",
@@ -176,8 +176,10 @@ class Body:
             self.budget -= 1
             if jumped and ch.draw(3, "dead") != 0:
                 break   # usually stop after a jump; sometimes emit unreachable code
-            k = ch.draw(24, "s")
-            if k == 5 and depth == 0 and ch.draw(2, "twins") == 0:
+            k = ch.draw(26, "s")
+            if k >= 24:
+                out += self.dead_jump_merge(env) if depth <= 2 and k == 24 else ["pass"]
+            elif k == 5 and depth == 0 and ch.draw(2, "twins") == 0:
                 out += self.twins(env)
             elif k < 6:
                 ty = self.some_type()
@@ -287,6 +289,33 @@ class Body:
         v = self.fresh()
         out.append(f"{v} = {a} - {b}")
         env[a], env[b], env[v] = ty, ty, ty
+        return out
+
+    def dead_jump_merge(self, env: dict, maybe: bool = False) -> list[str]:
+        """A loop whose body ends in an if/else where both arms jump, followed by a dead
+        jump: dead code jumping into a reachable merge block that keeps two live
+        predecessors.  With `maybe`, a variable is assigned under a further condition in
+        each arm and used after the loop (two equally distant candidate branches)."""
+        ch = self.ch
+        a, b = self.fresh("dj"), self.fresh("dj")
+        dead = ch.pick(("break", "continue", "break"), "dead_jump")
+        out = [] if maybe else [f"{a} = {self.expr(env, 'int', 1)}", f"{b} = {self.expr(env, 'int', 1)}"]
+        out += ["while True:"]
+        if ch.draw(2, "djm_pre_if"):
+            out += [f"    if {self.expr(env, 'bool', 1)}:", "        pass"]
+        c = self.expr(env, "bool", 1)
+        if maybe:
+            c1, c2 = self.expr(env, "bool", 1), self.expr(env, "bool", 1)
+            out += [f"    if {c}:", f"        if {c1}:", f"            {a} = 1", "        break",
+                    "    else:", f"        if {c2}:", f"            {a} = 2", "        break",
+                    f"    {dead}"]
+            return out + [f"{self.fresh('u')} = {a} + 1"]
+        out += [f"    if {c}:", f"        {a} = {a} + 1", "        break",
+                "    else:", f"        {b} = {b} + {a}", "        break", f"    {dead}"]
+        env[a], env[b] = "int", "int"
+        v = self.fresh()
+        out.append(f"{v} = {a} - {b}")
+        env[v] = "int"
         return out
 
     def qubit_block(self, env: dict) -> list[str]:
@@ -451,6 +480,8 @@ def plant(b: Body, lines: list[str], env: dict, m: dict) -> list[str]:
                  f"{b.fresh('u')}: int = comptime(({', '.join(['[]'] * n)}))",
                  f"{b.fresh('u')}: int = ({', '.join(['nothing()'] * n)})")
         ins = [[forms[ch.draw(len(forms), "unsolved_form")]]]
+    elif kind == "maybe_undefined_dead_merge":
+        ins = [b.dead_jump_merge(env, maybe=True)]
     elif kind == "uninferable_call":
         # a generic call checked against a type with inference variables of its own: the
         # note names one of k+1 variables that have no instantiation
